@@ -268,4 +268,219 @@ Proof.
   - intros H. unfold proc_inv in *; simpl in *.
     assert (q' = mkproc n (PDone o) g) by congruence. subst q'. simpl. auto.
 Qed.
+
+Lemma final_ok_frame n f f' : (f' = f \/ f' = Complete n) -> final_ok n f -> final_ok n f'.
+Proof. intros [->| ->]; simpl; auto. Qed.
+
+Lemma inv_step st l : Inv st -> Inv (step New orc st l).
+Proof.
+  intros [I1 I2 I3]. destruct l as [p n|p|p]; simpl.
+  - (* Spawn *)
+    destruct (procs st p) eqn:E; [split; auto|].
+    split; simpl; auto.
+    + intros p' H. destruct (Nat.eqb p' p); [discriminate|auto].
+    + intros p' q H. destruct (Nat.eqb p' p) eqn:E2.
+      * apply Nat.eqb_eq in E2. subst p'. inversion H; subst. unfold proc_inv; simpl. apply I2; auto.
+      * apply (I3 _ _ H).
+  - (* Step *)
+    destruct (procs st p) as [q|] eqn:E; [|split; auto].
+    pose proof (I3 _ _ E) as Hq.
+    destruct (step_proc_frame st p q Hq) as (F1 & F2 & F3).
+    destruct (step_proc_procs New orc st p q) as (q' & Hf & _ & _ & _ & Hp). specialize (Hp E).
+    split.
+    + intros n. apply final_ok_frame with (f := files st (Final So n)); auto.
+      destruct (F2 n) as [->|[_ ->]]; auto.
+    + intros p' H r. rewrite Hp in H. destruct (Nat.eqb p' p) eqn:E2; [discriminate|].
+      apply Nat.eqb_neq in E2. rewrite F1 by auto. apply I2; auto.
+    + intros p' q0 H. rewrite Hp in H. destruct (Nat.eqb p' p) eqn:E2.
+      * apply Nat.eqb_eq in E2. subst p'. apply step_proc_own; auto.
+        rewrite Hp, Nat.eqb_refl. auto.
+      * apply Nat.eqb_neq in E2.
+        apply proc_inv_frame with (st := st);
+          [intros r; apply F1; auto
+          |intros HC; destruct (F2 (pform q0)) as [->|[_ ->]]; auto
+          |apply (I3 _ _ H)].
+  - (* Kill *)
+    destruct (procs st p) as [q|] eqn:E; [|split; auto].
+    destruct (is_done (ppc q)); [split; auto|].
+    split; simpl; auto.
+    + intros p' H. destruct (Nat.eqb p' p); [discriminate|auto].
+    + intros p' q0 H. destruct (Nat.eqb p' p) eqn:E2.
+      * inversion H; subst. unfold proc_inv; simpl. auto.
+      * apply (I3 _ _ H).
+Qed.
+
+Lemma inv_run tr : forall st, Inv st -> Inv (run New orc tr st).
+Proof. induction tr; simpl; intros; auto. apply IHtr. apply inv_step. auto. Qed.
+
+(* ---- the conjuncts of the property, repaired protocol ---- *)
+
+(* no interleaving and no crash ever leaves an entry under a final name that is not
+   either absent, survivable, or the finished artefact of exactly that form *)
+Lemma final_entries_l st tr n : Inv st -> final_ok n (files (run New orc tr st) (Final So n)).
+Proof. intros H. apply (inv_final _ (inv_run tr st H)). Qed.
+
+Lemma step_final_so st l n :
+  Inv st -> files (step New orc st l) (Final So n) = files st (Final So n) \/
+            files (step New orc st l) (Final So n) = Complete n.
+Proof.
+  intros HI. destruct l as [p m|p|p]; simpl.
+  - destruct (procs st p); simpl; auto.
+  - destruct (procs st p) as [q|] eqn:E; auto.
+    destruct (step_proc_frame st p q (inv_procs _ HI _ _ E)) as (_ & F2 & _).
+    destruct (F2 n) as [->|[_ ->]]; auto.
+  - destruct (procs st p) as [q|]; auto. destruct (is_done (ppc q)); simpl; auto.
+Qed.
+
+Lemma final_entries_from_empty_l tr n :
+  files (run New orc tr init) (Final So n) = Absent \/ files (run New orc tr init) (Final So n) = Complete n.
+Proof.
+  assert (G: forall tr st, Inv st ->
+             (forall n, files st (Final So n) = Absent \/ files st (Final So n) = Complete n) ->
+             forall n, files (run New orc tr st) (Final So n) = Absent \/
+                       files (run New orc tr st) (Final So n) = Complete n).
+  { clear. induction tr as [|l tr IH]; simpl; intros st HI H n; auto.
+    apply IH; [apply inv_step; auto|]. clear IH n. intros n.
+    destruct (step_final_so st l n HI) as [->| ->]; auto. }
+  apply G; [apply inv_init|]. intros; simpl; auto.
+Qed.
+
+(* every process that finishes and was not killed returns the assembler of its own form:
+   no exception, no interpreter death, no foreign module -- under every schedule *)
+Lemma race_safety_l st tr p q o :
+  Inv st -> procs (run New orc tr st) p = Some q -> ppc q = PDone o -> o = Ok (pform q) \/ o = Killed.
+Proof.
+  intros HI HP HD. pose proof (inv_procs _ (inv_run tr st HI) _ _ HP) as H.
+  unfold proc_inv in H. rewrite HD in H. auto.
+Qed.
+
+(* ... and Killed can only come from a Kill *)
+Lemma killed_only_by_kill_l pr : forall tr st p q,
+  procs st p = Some q -> ppc q <> PDone Killed -> ~ In (Kill p) tr ->
+  forall q', procs (run pr orc tr st) p = Some q' -> ppc q' <> PDone Killed.
+Proof.
+  induction tr as [|l tr IH]; simpl; intros st p q HP HK HN q' H.
+  - congruence.
+  - destruct (step_keeps_proc pr orc st l p q HP) as (q1 & Hq1 & _ & _ & _ & Hk).
+    apply (IH _ p q1 Hq1); auto.
+    intros HH. destruct (Hk HH) as [A|A]; [contradiction|]. apply HN. left. auto.
+Qed.
+
+(* a completed entry is never replaced by anything but the same completed entry *)
+Lemma completed_stays_l st l n c :
+  Inv st -> files st (Final So n) = Complete c -> files (step New orc st l) (Final So n) = Complete c.
+Proof.
+  intros HI H. pose proof (inv_final _ HI n) as HF. rewrite H in HF. simpl in HF. subst c.
+  destruct (step_final_so st l n HI) as [->| ->]; auto.
+Qed.
+
+Lemma completed_stays_run_l tr : forall st n c,
+  Inv st -> files st (Final So n) = Complete c -> files (run New orc tr st) (Final So n) = Complete c.
+Proof.
+  induction tr as [|l tr IH]; simpl; intros; auto.
+  apply IH; [apply inv_step; auto|apply completed_stays_l; auto].
+Qed.
+
+(* the repaired protocol writes nothing but the finished .so under a final name *)
+Lemma no_inplace_writes_l tr : forall st r n,
+  Inv st -> r <> So -> files (run New orc tr st) (Final r n) = files st (Final r n).
+Proof.
+  induction tr as [|l tr IH]; simpl; intros st r n HI Hr; auto.
+  rewrite IH by (auto; apply inv_step; auto).
+  destruct l as [p m|p|p]; simpl.
+  - destruct (procs st p); simpl; auto.
+  - destruct (procs st p) as [q|] eqn:E; auto.
+    destruct (step_proc_frame st p q (inv_procs _ HI _ _ E)) as (_ & _ & F3). auto.
+  - destruct (procs st p) as [q|]; auto. destruct (is_done (ppc q)); simpl; auto.
+Qed.
+
+(* recovery: after ANY history of interleaved builds and crashes, a fresh process
+   requesting form n, running alone, ends after at most FUEL steps with the assembler of n *)
+Lemma solo_is_run pr fuel : forall st p, solo pr orc fuel st p = run pr orc (repeat (Step p) fuel) st.
+Proof. induction fuel; simpl; intros; auto. Qed.
+
+Lemma steps_of_repeat p k : steps_of p (repeat (Step p) k) = k.
+Proof. unfold steps_of. induction k; simpl; auto. rewrite Nat.eqb_refl. simpl. auto. Qed.
+
+Lemma not_in_repeat p k : ~ In (Kill p) (repeat (Step p) k).
+Proof. intros H. apply repeat_spec in H. discriminate. Qed.
+
+Lemma recovery_l st0 tr p n :
+  Inv st0 ->
+  procs (run New orc tr st0) p = None ->
+  outcome_of (solo New orc FUEL (step New orc (run New orc tr st0) (Spawn p n)) p) p = Some (Ok n).
+Proof.
+  intros HI HN. set (st := run New orc tr st0) in *.
+  assert (HIs : Inv (step New orc st (Spawn p n))) by (apply inv_step; apply inv_run; auto).
+  assert (HP : procs (step New orc st (Spawn p n)) p = Some (mkproc n PImport n)).
+  { simpl. rewrite HN. rewrite procs_setproc, Nat.eqb_refl. auto. }
+  set (st1 := step New orc st (Spawn p n)) in *.
+  rewrite solo_is_run.
+  destruct (liveness_l New orc (repeat (Step p) FUEL) st1 p _ HP) as (q' & A & B & C).
+  { rewrite steps_of_repeat. simpl. unfold FUEL. lia. }
+  unfold outcome_of. rewrite A. destruct (ppc q') as [| |r w| | | |o] eqn:E; try discriminate.
+  destruct (race_safety_l st1 _ p q' o HIs A E) as [->| ->].
+  - simpl in B. rewrite B. auto.
+  - exfalso. eapply (killed_only_by_kill_l New (repeat (Step p) FUEL) st1 p _ HP); eauto.
+    + simpl. discriminate.
+    + apply not_in_repeat.
+Qed.
 End NewProtocol.
+
+(* ------------------------------------------------------------------------- *)
+(* the protocol of compile.py:25-73 as it is (in-place writes): refuted      *)
+(* ------------------------------------------------------------------------- *)
+
+(* process 0 builds form 0 and is killed while the linker has written the first pages of the .so *)
+Definition tr_killed_in_link : list label := Spawn 0 0 :: repeat (Step 0) 19 ++ [Kill 0].
+
+Lemma recovery_refuted_l : forall orc, orc Header = Crash ->
+  (forall p, p <> 0 -> ~ In (Kill p) tr_killed_in_link) /\
+  files (run Old orc tr_killed_in_link init) (Final So 0) = Partial Header 0 /\
+  (* the first step of the fresh process 1 -- importlib.import_module -- kills the interpreter *)
+  outcome_of (run Old orc (tr_killed_in_link ++ [Spawn 1 0; Step 1]) init) 1 = Some Death.
+Proof.
+  intros orc H. split; [|split].
+  - intros p Hp HI. unfold tr_killed_in_link in HI. simpl in HI.
+    repeat (destruct HI as [HI|HI]; [try discriminate; inversion HI; congruence|]). contradiction.
+  - vm_compute. reflexivity.
+  - vm_compute. rewrite H. reflexivity.
+Qed.
+
+(* nobody is killed: process 1 requests the form while process 0 is linking it *)
+Definition tr_import_during_link : list label := Spawn 0 0 :: Spawn 1 0 :: repeat (Step 0) 19 ++ [Step 1].
+
+Lemma race_safety_refuted_l : forall orc, orc Header = Crash ->
+  (forall p, ~ In (Kill p) tr_import_during_link) /\
+  outcome_of (run Old orc tr_import_during_link init) 1 = Some Death.
+Proof.
+  intros orc H. split.
+  - intros p HI. unfold tr_import_during_link in HI. simpl in HI.
+    repeat (destruct HI as [HI|HI]; [discriminate|]). contradiction.
+  - vm_compute. rewrite H. reflexivity.
+Qed.
+
+(* nobody is killed, no damaged file is ever loaded: process 0 truncates the .pyx that process 1
+   has just written and is about to hand to Cython *)
+Definition tr_pyx_truncated : list label :=
+  Spawn 0 0 :: Spawn 1 0 :: Step 0 :: Step 0 :: repeat (Step 1) 7 ++ [Step 0; Step 1].
+
+Lemma race_exception_refuted_l : forall orc,
+  (forall p, ~ In (Kill p) tr_pyx_truncated) /\
+  outcome_of (run Old orc tr_pyx_truncated init) 1 = Some Exn.
+Proof.
+  intros orc. split.
+  - intros p HI. unfold tr_pyx_truncated in HI. simpl in HI.
+    repeat (destruct HI as [HI|HI]; [discriminate|]). contradiction.
+  - vm_compute. reflexivity.
+Qed.
+
+(* both processes miss the cache; 0 completes the entry; 1 then links over it in place *)
+Definition tr_relink : list label :=
+  Spawn 0 0 :: Spawn 1 0 :: Step 1 :: repeat (Step 0) 26 ++ repeat (Step 1) 16.
+
+Lemma completed_overwritten_refuted_l : forall orc,
+  files (run Old orc tr_relink init) (Final So 0) = Complete 0 /\
+  outcome_of (run Old orc tr_relink init) 0 = Some (Ok 0) /\
+  files (run Old orc (tr_relink ++ [Step 1]) init) (Final So 0) = Partial Empty 0.
+Proof. intros orc. vm_compute. auto. Qed.
